@@ -84,12 +84,12 @@ def cov_pass(job):
                         found.pop("not-covariant", None)
                         found.pop("dimension-changed", None)
                     for w, x in base:
-                        key = f"{fid}|{w}"
+                        key = f"{fid}|{t.variant}|{w}"
                         if key not in fails:
                             fails[key] = dict(kind="base", tid=t.tid, dk=dk, sc=sc, seed=dseed, mode=mode, om=om, what=w, detail=x,
                                               call=f"{t.func}({t.instantiate(dk, sc, dseed).describe()})")
                     for w, (rg, x) in found.items():
-                        key = f"{fid}|{w}"
+                        key = f"{fid}|{t.variant}|{w}"
                         if key not in fails:
                             fails[key] = dict(kind="cov", tid=t.tid, dk=dk, sc=sc, seed=dseed, mode=mode, rg=rg, om=om, what=w, detail=str(x)[:500],
                                               call=f"{t.func}({t.instantiate(dk, sc, dseed).describe()})")
